@@ -161,14 +161,14 @@ def run_scenario(env, kind, queries, scratch, bound, budget, viol, stats, only_s
         def policy(enabled, last, pend):
             if last is None or last not in enabled:
                 return rnd.choice(list(enabled))
-            p = 0.5 if (pend is not None and pend[0] in critical) else 0.05
+            p = 0.5 if (pend is not None and pend[0] in critical) else (0.25 if pend is not None and pend[0] in ("get", "start") else 0.05)
             if len(enabled) > 1 and rnd.random() < p:
                 return rnd.choice([t for t in enabled if t != last])
             return last
 
         policy_box[0] = policy
         try:
-            for _ in range(max(10, budget // 2) if file_backed else max(5, budget // 5)):
+            for _ in range(max(10, budget) if file_backed else max(5, budget // 4)):
                 yield run_schedule([])
         finally:
             policy_box[0] = None
